@@ -268,6 +268,37 @@ def availFuel (g : Cfg) : Nat := 64 * (g.nodes.size + 2)
 
 def available (g : Cfg) : Cfg × Bool := availLoop (availFuel g) g []
 
+/-- the same loop, also returning the set of nodes it visited -/
+def availLoopV : Nat → Cfg → List Nat → Cfg × List Nat × Bool
+  | 0, g, vis => (g, vis, false)
+  | fuel + 1, g, vis =>
+    let (g', vis', ch) := availSweep g vis
+    if ch then availLoopV fuel g' vis' else (g', vis', true)
+
+def availableV (g : Cfg) : Cfg × List Nat × Bool := availLoopV (availFuel g) g []
+
+/-! ### a decidable check that finished facts are a fixed point (hypothesis of `exec_sound`) -/
+
+def keysNodup {κ : Type} [DecidableEq κ] : AMap κ → Bool
+  | [] => true
+  | p :: rest => !(rest.any (·.1 == p.1)) && keysNodup rest
+
+def noZeroBaseB (m : AMap Reg) : Bool :=
+  m.all fun p => match p.2 with
+    | .ors r _ => r != 0
+    | .rs r _ => r != 0
+    | _ => true
+
+/-- one entry per key, no claim relative to x0, and at every visited node: in = meet of the
+    outs of the visited predecessors, out = transfer of in (as finite maps) -/
+def goodFactsB (g : Cfg) (V : List Nat) : Bool :=
+  (List.range g.nodes.size).all fun i =>
+    let cn := g.get i
+    keysNodup cn.regIn && keysNodup cn.regOut && noZeroBaseB cn.regIn &&
+    (!V.contains i ||
+      (AMap.sameAs cn.regIn (meetOver ((cn.prevs.filter V.contains).map fun p => (g.get p).regOut)) &&
+       AMap.sameAs cn.regOut (nodeRegOut cn cn.regIn cn.memIn)))
+
 /-! ### interrupt handler names -/
 
 def interruptHandlerNames (g : Cfg) : List (W String) :=
